@@ -49,7 +49,7 @@ def fan_shapes():
     return out
 
 
-def scenarios(flavour, n, max_edges, methods, only=None, order=None, shapes=None):
+def scenarios(flavour, n, max_edges, methods, only=None, order=None, shapes=None, twice=False):
     for seq in (shapes if shapes is not None else canon_sequences(n, max_edges)):
         for cfg in configs():
             if only and not only(cfg):
@@ -68,7 +68,7 @@ def scenarios(flavour, n, max_edges, methods, only=None, order=None, shapes=None
                 for tgt in tgts:
                     for method in methods:
                         def spec(tr, off):
-                            s = {'root': root + off, 'mode': mode, 'method': method, 'transpose': tr}
+                            s = {'root': root + off, 'mode': mode, 'method': method, 'transpose': (2 if twice else True) if tr else False}
                             if step == 'search':
                                 s['alg'] = a
                                 s['target'] = None if tgt is None else tgt + off
@@ -142,6 +142,8 @@ def run(prop, tier, seed):
         # the builder calls in reverse order (closure, transpose, target, priority) must configure the same search
         items += list(scenarios(fl, 3, 2, ('none', 'foreach'), only=lambda c: c[0] == 'search', order=REVERSED_BUILDER))
         items += list(scenarios(fl, 3, 2, ('foreach', 'filter'), only=lambda c: c[0] == 'order', order=REVERSED_BUILDER))
+        # transpose() called twice still configures a transposed run (it sets the direction, it does not toggle it)
+        items += list(scenarios(fl, 3, 2, ('none', 'foreach'), twice=True))
         # a frontier of three nodes discovered from one expansion (ties among them): 4 nodes, a node with in- or out-degree 3
         items += list(scenarios(fl, 4, 4, ('none', 'foreach'), only=lambda c: c[1] == 'pfs', shapes=fan_shapes()))
         items += [it for it in scenarios(fl, 4, 5, ('foreach',), only=lambda c: c[1] == 'pfs' and c[3] in ('path', 'cycle'), shapes=tie_shapes())
